@@ -149,6 +149,17 @@ fn execute_with(case: &(usize, usize, usize), cookie: &str, peer_cookie: &str, c
             else if conn.negotiated_flags().map(|f| f.as_u64()) != Some(our_flags & peer_flags) { res.violations.push(("negotiated flags are not the intersection of both sides' flags".into(), detail(format!("{:?}", conn.negotiated_flags())))); }
         } else if r.is_ok() || connected {
             res.violations.push(("connected state reached although the peer deviated from the handshake".into(), detail(format!("connect ok={} state={}", r.is_ok(), conn.state()))));
+        } else {
+            // no other view of the connection says "connected" either, and an operation is refused without writing
+            let before = peer.log.len();
+            let a = erltf::types::ExternalPid::new(erltf::types::Atom::new("me@127.0.0.1"), 1, 0, 42);
+            let b = erltf::types::ExternalPid::new(erltf::types::Atom::new(PEER_NAME), 2, 0, PEER_CREATION);
+            let reports = conn.is_connected();
+            let op_ok = conn.link(&a, &b).await.is_ok() | conn.send_raw(&[1, 2, 3]).await.is_ok();
+            for _ in 0..50 { w.yield_once().await; peer.pump(); }
+            if reports || op_ok || peer.log.len() != before {
+                res.violations.push(("connected state reached although the peer deviated from the handshake".into(), detail(format!("is_connected()={} state={} operation accepted={} bytes written afterwards={}", reports, conn.state(), op_ok, peer.log.len() - before))));
+            }
         }
         // a second connect() on an established connection is refused and leaves the authenticated session in place:
         // what is sent afterwards reaches the peer that proved the cookie
@@ -196,6 +207,36 @@ fn execute_with(case: &(usize, usize, usize), cookie: &str, peer_cookie: &str, c
         } else { h2.abort(); res.violations.push(("second connect never reached the peer".into(), detail("reuse".into()))); }
         res.steps = 3;
         res.outcome = format!("conforming={} ok={}", conforming, r.is_ok());
+        res
+    })
+}
+
+/// The configured I/O timeout is the one that applies: with 200 ms configured, a peer that falls silent at each stage of the
+/// handshake makes connect() give up once 200 ms (and a little) of the clock have passed, not later.
+fn short_timeout_exec(stage: &usize, ctx: &WorkerCtx) -> ExecResult {
+    let stage = *stage;
+    run_rt(async move {
+        let mut res = ExecResult::default();
+        tokio::time::pause();
+        let w = World::new(ctx.heartbeat.clone(), &ctx.listeners).await;
+        w.gates.set_active(&[]);
+        let cfg = ConnectionConfig::new("me@127.0.0.1", PEER_NAME, COOKIE).with_epmd_host("127.0.0.1").with_timeout(Duration::from_millis(200));
+        let mut conn = Connection::new(cfg);
+        let mut h = tokio::spawn(async move { let r = conn.connect().await; (conn, r) });
+        let Some(mut peer) = w.accept_peer().await else { res.violations.push(("library never connected to the peer".into(), json!({}))); return res; };
+        // stage 0: silent from the start; 1: after the status; 2: after the challenge
+        if stage >= 1 { let _ = wait_frames(&w, &mut peer, 0, 1).await; peer.send(&frame(&hs_status("ok"), 2)); }
+        if stage >= 2 { peer.send(&frame(&hs_challenge(PEER_FLAGS_A, 7, PEER_CREATION, PEER_NAME.as_bytes()), 2)); }
+        for _ in 0..2000 { w.yield_once().await; peer.pump(); }
+        let early = h.is_finished();
+        tokio::time::advance(Duration::from_millis(450)).await;
+        for _ in 0..4000 { w.yield_once().await; peer.pump(); if h.is_finished() { break; } }
+        let done = h.is_finished();
+        let stage_name = ["start", "after the status", "after the challenge"][stage % 3];
+        if early || !done { res.violations.push(("connect did not end in an error within the configured timeout".into(), json!({"configured_timeout_ms": 200, "silent_from_stage": stage_name, "returned_before_any_time_passed": early, "returned_after_450_ms": done}))); }
+        if !done { h.abort(); } else if let Ok((c, r)) = (&mut h).await { if r.is_ok() || c.is_connected() { res.violations.push(("connected state reached although the peer deviated from the handshake".into(), json!({"what": "silent peer, short timeout"}))); } }
+        res.steps = 1;
+        res.outcome = format!("short timeout stage {}", stage);
         res
     })
 }
@@ -270,10 +311,13 @@ pub fn run(rep: &Report) -> Value {
         for other in [c.trim().to_string(), format!(" {}", c), c.to_lowercase()] { if other != c { ck.push((c.to_string(), other)); } }
     }
     let st_c: Stats = for_all(rep, "cookies with whitespace and case", &ck, |c, ctx| execute_with(&(0, 0, 0), &c.0, &c.1, ctx));
+    let stg = [0usize, 1, 2];
+    let st_t: Stats = for_all(rep, "silent peer under a 200 ms configured timeout", &stg, |c, ctx| short_timeout_exec(c, ctx));
     let nk = [0usize, 1, 2];
     let st_n: Stats = for_all(rep, "Node::connect against peers that do not prove the cookie, repeated", &nk, |c, ctx| node_connect_failures_exec(c, ctx));
     json!({
         "node_level_executions": st_n.executions,
+        "short_timeout_executions": st_t.executions,
         "states": st.executions + st_c.executions,
         "transitions": st.transitions + st_c.transitions,
         "traces_validated_against_impl": st.executions + st_c.executions,
